@@ -49,6 +49,8 @@ var (
 		"https://rp.example/lo?a=1;b=2", "https://rp.example/%zz", "myapp://logout", "http://localhost:8080/out",
 		"https://rp.example/a%20b", "https://rp.example/lo?x=%zz&y=1", "https://rp.example/Lo", "https://rp2.example/out",
 		"myapp:logout?x=1", "https://rp.example/lo?",
+		// exact registrations full of glob metacharacters (must stay strings), mixed case
+		"https://rp.example/[ab]/*", "https://rp.example/a\\b", "https://RP.example/Logged-Out", "https://rp.example/*",
 	}
 	c18PLGlobPool = []string{
 		"https://glob.example/logout/*", "https://glob.example/u?/done", "https://*.glob.example/out", "https://bad.example/[",
@@ -148,6 +150,13 @@ func c18Clients(r *hx.Rand, canonical bool) []*refstore.Client {
 			c.Redirects = c18Subset(r, c18LoginPool, 2)
 			if len(c.Redirects) == 0 {
 				c.Redirects = []string{"https://rp.example/cb"}
+			}
+			// unusual but legal: duplicate entries, an entirely empty post-logout registration
+			if len(c.PostLogout) > 0 && r.Chance(25) {
+				c.PostLogout = append(c.PostLogout, c.PostLogout[r.Intn(len(c.PostLogout))])
+			}
+			if r.Chance(10) {
+				c.PostLogout, c.PostLogoutGlobs = nil, nil
 			}
 		}
 	}
@@ -352,10 +361,12 @@ type c18Case struct {
 	client     string // the client the request is about
 	signer     string // "" | op | x | y | unknown: who signs the hint (overrides the key of the hint kind)
 	termFail   bool   // the storage refuses to terminate sessions while this request is served
+	lookupFail bool   // the storage fails the client lookup (GetClientByClientID) while this request is served
 	plu        string // when set: the post_logout_redirect_uri to send (pk only labels the case)
 }
 
 var errC18Storage = fmt.Errorf("storage: terminate failed")
+var errC18Lookup = fmt.Errorf("storage: lookup failed")
 
 // run executes one request on the bed and emits its line
 func (cb *c18Bed) run(r *hx.Rand, sy *symbols, caseNo int, cs c18Case, stats map[string]int, w *bufio.Writer) {
@@ -484,6 +495,10 @@ func (cb *c18Bed) run(r *hx.Rand, sy *symbols, caseNo int, cs c18Case, stats map
 		}
 	case 2:
 		cid = otherClient
+		if cs.hk != 0 && cs.hk != 8 && azp != "" && r.Chance(30) {
+			cid = strings.ToUpper(azp[:1]) + azp[1:] // contradicts the hint by nothing but the case of a letter
+			stats["client_id-case-variant-of-azp"]++
+		}
 	case 3:
 		cid = "nobody"
 	}
@@ -574,10 +589,13 @@ func (cb *c18Bed) run(r *hx.Rand, sy *symbols, caseNo int, cs c18Case, stats map
 		bed.Store.FailMethod("TerminateSession", errC18Storage)
 		bed.Store.FailMethod("TerminateSessionFromRequest", errC18Storage)
 	}
+	if cs.lookupFail {
+		bed.Store.FailMethod("GetClientByClientID", errC18Lookup)
+	}
 	t0 := time.Now()
 	resp := bed.Do(req)
 	t1 := time.Now()
-	if cs.termFail {
+	if cs.termFail || cs.lookupFail {
 		bed.Store.ClearFaults()
 	}
 	term := bed.Store.Terminated[nTerm:]
@@ -593,11 +611,14 @@ func (cb *c18Bed) run(r *hx.Rand, sy *symbols, caseNo int, cs c18Case, stats map
 	if cs.termFail {
 		kind += ".tf"
 	}
+	if cs.lookupFail {
+		kind += ".lf"
+	}
 	if cs.formErr {
 		kind = "formerr"
 	}
 	l := hx.NewLine("C18").I("case", int64(caseNo)).S("kind", kind).S("router", bed.Cfg.Router).B("termfromreq", bed.Cfg.Caps.TermFromReq).
-		B("dynamic", cb.dynamic).B("termfail", cs.termFail).S("issuer", reqIssuer).S("default", cb.deflt).B("post", cs.post).I("now0", t0.UnixNano()).I("now1", t1.UnixNano())
+		B("dynamic", cb.dynamic).B("termfail", cs.termFail).B("lookupfail", cs.lookupFail).S("issuer", reqIssuer).S("default", cb.deflt).B("post", cs.post).I("now0", t0.UnixNano()).I("now1", t1.UnixNano())
 	l.I("cl.n", int64(len(cb.clients)))
 	for i, c := range cb.clients {
 		p := fmt.Sprintf("cl.%d.", i)
@@ -691,6 +712,9 @@ func (cb *c18Bed) run(r *hx.Rand, sy *symbols, caseNo int, cs c18Case, stats map
 	stats["opts-"+cb.optMode]++
 	if cs.termFail {
 		stats["storage-refuses-termination"]++
+	}
+	if cs.lookupFail {
+		stats["storage-fails-client-lookup"]++
 	}
 	if hint != "" && cs.hk != 8 && !cs.formErr {
 		outcome := "rejected"
@@ -833,6 +857,7 @@ func c18Stream(r *hx.Rand, tier string, n int, w *bufio.Writer) map[string]int {
 			cs.state = hx.Pick(r, "", "", c18States[r.Intn(len(c18States))])
 			cs.formErr = r.Chance(1)
 			cs.termFail = r.Chance(4)
+			cs.lookupFail = r.Chance(3)
 			if optMode != 0 && r.Chance(60) || r.Chance(8) {
 				cs.signer = c18Signers[r.Intn(len(c18Signers))]
 			}
